@@ -52,4 +52,12 @@ TEXT["C10"] = _t("Proof: Lean theorems c10_once, c10_releases (wait list emptied
                  "DESIGN.md §5 C10", "Lean 4 theorems over the channel model + differential + close monitor on scheduled runs")
 TEXT["C11"] = _t("Proof: Lean theorems c11_alive (no disconnect error while a handle of that side lives, using the C12 count invariant), c11_drain_then_error, c11_release (the 1->0 drop terminates all waiters), c11_no_receivers (send fails with ReceiveClosed, value handed back or destroyed once and — by the custody-stability theorem — never delivered in any continuation). Tie: extractor guards, differential with clone/drop sequences, scheduled runs with handle drops racing blocked operations, disconnect monitor.",
                  "DESIGN.md §5 C11", "Lean 4 theorems (counts + structural invariant + custody stability) + differential + disconnect monitor")
+TEXT["C13"] = _t("Proof: Lean theorems c13_timeout_only_if_expired, c13_expire_listed (Timeout: value back with the caller or destroyed once and — via custody stability — never delivered in any continuation; waiter dead and out of the list; others keep order), c13_expire_claimed (expiry racing a hand-off keeps waiting), c13_complete (decided outcome reported, value moved exactly once), c13_trichotomy, for every reachable state: the deadline may expire at any point of any interleaving because `expire` is an always-available environment step. Tie: extractor (pre-check `>`; loop `<`; no park in wait_timeout; D1/D2 repairs), sequential differential with zero/long durations, scheduled runs under a virtual clock advanced at random and targeted points with the not-early oracle.",
+                 "DESIGN.md §5 C13", "Lean 4 theorems over the interleaving model with an environment expiry step + differential + virtual-clock scheduled runs")
+TEXT["C14"] = _t("Proof: Lean theorems c14_never_waits, c14_refused_unchanged, c14_send_truth, c14_recv_truth over every state of the model, and c14_realtime (one try_lock step in the lock model whatever the other threads do, used by exactly the *_realtime entry points per the extractor). Tie: differential on try/drain sequences, scheduled runs in which a peer is frozen after each kind of event while a realtime caller must finish alone (realtime and nonblocking monitors).",
+                 "DESIGN.md §5 C14", "Lean 4 theorems (channel model + lock model) + differential + frozen-peer scheduled runs")
+TEXT["C15"] = _t("Proof: Lean theorems c15_send_drop, c15_recv_drop (every state of the future: never polled, pending-listed, claimed-not-finalised (Drop waits), completed, finished; value destroyed once / delivered once / untouched; wait list = erase), c15_dead_untouched (no step ever touches a dead waiter's entry) for every reachable state. Tie: differential with future drops after every prefix, scheduled runs with drops racing peers, ledger and lifetime oracles.",
+                 "DESIGN.md §5 C15", "Lean 4 theorems over the interleaving model + differential + scheduled runs with ledger/lifetime oracles")
+TEXT["C16"] = _t("Proof: Lean theorems c16_spurious, c16_pending_registers (incl. the same-waker poll inside the hand-off window, shown not to lose the wake-up), c16_waker_stable + c16_finalize_wakes_registered (the waker woken is the one of the last Pending poll), c16_no_invention, c16_repoll, c16_stream_end, c16_stream_rearmed; negative theorems for the D3 and D4 variants. Tie: extractor (waker refresh under the lock on both futures, stream re-arm), exhaustive poll scripts with three wakers, scheduled runs with the lost-wake-up monitor; corpus replay of D5.",
+                 "DESIGN.md §5 C16", "Lean 4 theorems over the interleaving model + exhaustive poll-script differential + wake monitor on scheduled runs")
 NOT_YET = {}
